@@ -78,6 +78,88 @@ UNITS = [
          functions=["CompareSubstateLocation::operator() (StateSpace::getCommonSubspaces)"], backend="minisat",
          canaries=[dict(name="name_compared_with_itself", where="body:compare", rx=r"a->name > b->name", repl="a->name > a->name")]),
 ]
+# ---------------------------------------------------------------- planner-data archives: store / load round trip and rejection (base and control storage)
+PDSH = "src/ompl/base/PlannerDataStorage.h"
+PDSC = "src/ompl/base/src/PlannerDataStorage.cpp"
+CPDSH = "src/ompl/control/PlannerDataStorage.h"
+CPDSC = "src/ompl/control/src/PlannerDataStorage.cpp"
+_S = __import__("re").S
+PDS_RULES = [
+    (r"OMPL_DEBUG\([^;]*\);", "", 0),
+    (r"const (?:base::)?StateSpacePtr &space = pd\.getSpaceInformation\(\)->getStateSpace\(\);", "", 0),
+    (r"const ControlSpacePtr &space =\s*static_cast<(?:const )?control::PlannerData &>\(pd\)\.getSpaceInformation\(\)->getControlSpace\(\);", "", 0),
+    (r"std::vector<unsigned char> (state|ctrl)\(space->getSerializationLength\(\)\);", r"int \1;", 0),
+    (r"std::vector<unsigned char> ctrlBuf\(space->getSerializationLength\(\)\);", "", 0),
+    (r"std::vector<(?:State|Control) \*> (states|controls);", r"int \1[8]; unsigned \1_n = 0;", 0),
+    (r"PlannerDataVertexData vertexData;", "VData vertexData;", 0), (r"PlannerDataEdge(?:Control)?Data edgeData;", "EData edgeData;", 0),
+    (r"ia >> vertexData;", "if (!AR_GET_V(&vertexData)) { EXC_ = 1; return; }", 0), (r"ia >> edgeData;", "if (!AR_GET_E(&edgeData)) { EXC_ = 1; return; }", 0),
+    (r"oa << vertexData;", "AR_PUT_V(&vertexData);", 0), (r"oa << edgeData;", "AR_PUT_E(&edgeData);", 0),
+    (r"const PlannerDataVertex \*v = vertexData\.v_;", "int v = vertexData.v_;", 0),
+    (r"State \*state = space->allocState\(\);", "int state = ALLOC_STATE();", 0), (r"Control \*ctrl = space->allocControl\(\);", "int ctrl = ALLOC_STATE();", 0),
+    (r"(states|controls)\.push_back\((\w+)\);", r"\1[\1_n++] = \2;", 0),
+    (r"space->deserialize\(state, &vertexData\.state_\[0\]\);", "DESERIALIZE(state, vertexData.state_);", 0),
+    (r"space->deserialize\(ctrl, &edgeData\.control_\[0\]\);", "DESERIALIZE(ctrl, edgeData.control_);", 0),
+    (r"const_cast<PlannerDataVertex \*>\(v\)->state_ = state;", "VO_state[v] = state;", 0),
+    (r"const_cast<PlannerDataEdgeControl \*>\(static_cast<const PlannerDataEdgeControl \*>\(edgeData\.e_\)\)->c_ =\s*ctrl;", "EO_ctrl[edgeData.e_] = ctrl;", 0),
+    (r"PlannerDataVertexData::(START|GOAL|STANDARD)", r"T_\1", 0),
+    (r"pd\.addStartVertex\(\*v\)", "PD_addStartVertex(pd, v)", 0), (r"pd\.addGoalVertex\(\*v\)", "PD_addGoalVertex(pd, v)", 0), (r"pd\.addVertex\(\*v\)", "PD_addVertex(pd, v)", 0),
+    (r"delete vertexData\.v_;", "VO_DELETE(vertexData.v_);", 0), (r"delete edgeData\.e_;", "EO_DELETE(edgeData.e_);", 0),
+    (r"pd\.decoupleFromPlanner\(\);", "PD_decouple(pd);", 0),
+    (r"for \(auto &state : states\)\s*space->freeState\(state\);", "for (unsigned k_ = 0; k_ < states_n; ++k_) FREE_STATE(states[k_]);", 0),
+    (r"for \(auto &control : controls\)\s*space->freeControl\(control\);", "for (unsigned k_ = 0; k_ < controls_n; ++k_) FREE_STATE(controls[k_]);", 0),
+    (r"const PlannerDataVertex &v = pd\.getVertex\(i\);", "int v = PD_getVertex(pd, i);", 0), (r"vertexData\.v_ = &v;", "vertexData.v_ = v;", 0),
+    (r"space->serialize\(&state\[0\], v\.getState\(\)\);", "state = SERIALIZE(VO_state[v]);", 0),
+    (r"space->serialize\(&ctrl\[0\],\s*static_cast<const PlannerDataEdgeControl \*>\(edgeData\.e_\)->getControl\(\)\);", "ctrl = SERIALIZE(EO_ctrl[edgeData.e_]);", 0),
+    (r"std::vector<unsigned int> edgeList;", "unsigned edgeList[8]; unsigned edgeList_n = 0;", 0), (r"edgeList\.clear\(\);", "edgeList_n = 0;", 0),
+    (r"pd\.getEdges\(fromVertex, edgeList\);", "edgeList_n = PD_getEdges(pd, fromVertex, edgeList);", 0),
+    (r"for \(unsigned int toVertex : edgeList\)\s*\{", "for (unsigned k_ = 0; k_ < edgeList_n; ++k_) { unsigned int toVertex = edgeList[k_];", 0),
+    (r"(?:base::)?Cost weight;", "double weight;", 0), (r"weight\.value\(\)", "weight", 0),
+    (r"&pd\.getEdge\(", "PD_getEdge(pd, ", 0), (r"edgeData\.endpoints_\.(first|second)", r"edgeData.\1", 0),
+    (r"\*edgeData\.e_", "edgeData.e_", 0), (r"(?:base::)?Cost\(edgeData\.weight_\)", "edgeData.weight_", 0),
+    (r"pd\.(numVertices|numEdges|isStartVertex|isGoalVertex|getEdgeWeight|addEdge|clear)\(", r"PD_\1(pd, ", 0), (r"PD_(\w+)\(pd, \)", r"PD_\1(pd)", 0),
+    # store / load
+    (r"const (?:base::)?SpaceInformationPtr &si = pd\.getSpaceInformation\(\);", "bool si = PD_hasSI(pd);", 0),
+    (r"const SpaceInformationPtr &si = static_cast<(?:const )?control::PlannerData &>\(pd\)\.getSpaceInformation\(\);", "bool si = PD_hasSI(pd);", 0),
+    (r"!(?:out|in)\.good\(\)", "!stream_good", 0),
+    (r"\btry\s*\{", "{", 0), (r"catch \(boost::archive::archive_exception &ae\)\s*\{", "if (0) { CATCH: ;", 0),
+    (r"boost::archive::binary_[io]archive [io]a\((?:out|in)\);", "", 0),
+    (r"si->getStateSpace\(\)->computeSignature\(h\.signature\);", "h.signature = SPACE_SIG;", 0), (r"si->getControlSpace\(\)->computeSignature\(h\.control_signature\);", "h.control_signature = CONTROL_SIG;", 0),
+    (r"oa << h;", "AR_PUT_H(&h);", 0), (r"ia >> h;", "if (!AR_GET_H(&h)) goto CATCH;", 0),
+    (r"std::vector<int> sig;\s*si->getStateSpace\(\)->computeSignature\(sig\);", "int sig = SPACE_SIG;", 0),
+    (r"sig\.clear\(\);\s*si->getControlSpace\(\)->computeSignature\(sig\);", "sig = CONTROL_SIG;", 0),
+    (r"storeVertices\(pd, oa\);", "pds_storeVertices(pd);", 0), (r"storeEdges\(pd, oa\);", "pds_storeEdges(pd);", 0),
+    (r"loadVertices\(pd, h\.vertex_count, ia\);", "pds_loadVertices(pd, h.vertex_count); if (EXC_) goto CATCH;", 0), (r"loadEdges\(pd, h\.edge_count, ia\);", "pds_loadEdges(pd, h.edge_count); if (EXC_) goto CATCH;", 0),
+    (r"if \(!pd\.hasControls\(\)\)\s*\{.*?\}", "", 0, _S), (r"if \(pdc == nullptr\)\s*\{.*?\}", "", 0, _S),
+    (r"const auto \*pdc = static_cast<const control::PlannerData \*>\(&pd\);", "const PData *pdc = pd;", 0), (r"auto \*pdc = static_cast<control::PlannerData \*>\(&pd\);", "PData *pdc = pd;", 0),
+    (r"const SpaceInformationPtr &si = pdc->getSpaceInformation\(\);", "bool si = PD_hasSI(pdc);", 0), (r"pdc->(clear|numVertices|numEdges)\(\)", r"PD_\1(pdc)", 0),
+]
+def _pds(name, file, sig, which=None):
+    d = dict(name=name, file=file, sig=sig, rules=PDS_RULES, loops={"allow_uncontracted": True})
+    if which is not None:
+        d["which"] = which
+    return d
+PDS_BASE = [
+    _pds("storeVertices", PDSH, r"virtual void storeVertices\(const PlannerData &pd, boost::archive::binary_oarchive &oa\)"),
+    _pds("loadVertices", PDSH, r"virtual void loadVertices\(PlannerData &pd, unsigned int numVertices, boost::archive::binary_iarchive &ia\)"),
+    _pds("storeEdges", PDSH, r"virtual void storeEdges\(const PlannerData &pd, boost::archive::binary_oarchive &oa\)"),
+    _pds("loadEdges", PDSH, r"virtual void loadEdges\(PlannerData &pd, unsigned int numEdges, boost::archive::binary_iarchive &ia\)"),
+    _pds("store", PDSC, r"bool ompl::base::PlannerDataStorage::store\(const PlannerData &pd, std::ostream &out\)"),
+    _pds("load", PDSC, r"bool ompl::base::PlannerDataStorage::load\(std::istream &in, PlannerData &pd\)"),
+]
+PDS_CTRL = PDS_BASE[:2] + [
+    _pds("storeEdges", CPDSH, r"void storeEdges\(const base::PlannerData &pd, boost::archive::binary_oarchive &oa\) override"),
+    _pds("loadEdges", CPDSH, r"void loadEdges\(base::PlannerData &pd, unsigned int numEdges, boost::archive::binary_iarchive &ia\) override"),
+    _pds("store", CPDSC, r"bool ompl::control::PlannerDataStorage::store\(const base::PlannerData &pd, std::ostream &out\)"),
+    _pds("load", CPDSC, r"bool ompl::control::PlannerDataStorage::load\(std::istream &in, base::PlannerData &pd\)"),
+]
+for _tag, _src, _def, _fn in (("base", PDS_BASE, {}, "ompl::base::PlannerDataStorage"), ("control", PDS_CTRL, {"CONTROL": 1}, "ompl::control::PlannerDataStorage")):
+    for _h, _can in (("roundtrip", [dict(name="weights_not_restored", where="body:loadEdges", rx=r",\s*edgeData\.weight_\)", repl=")"),
+                                    dict(name="states_freed_before_decoupling", where="body:loadVertices", rx=r"PD_decouple\(pd\);", repl=";")]),
+                     ("reject", [dict(name="marker_not_checked", where="body:load", rx=r"h\.marker != OMPL_PLANNER_DATA_(CONTROL_)?ARCHIVE_MARKER", repl="0")])):
+        UNITS.append(dict(name="c09_pdstorage_%s_%s" % (_tag, _h), template="C09/pd_storage.c", mode="plain", entry="h_" + _h, sources=_src, defines=dict(_def), flags=D.PFLAGS, unwind=7, unwindset={"fresh_world.0": 22, "h_roundtrip.0": 22, "h_roundtrip.3": 22, "h_roundtrip.4": 22}, level="bounded",
+                          bound="graphs of <= 3 vertices and <= 3 edges (distinct endpoint pairs), all tags / marks / weights / contents", backend="cadical", timeout=900,
+                          functions=[_fn + "::" + f for f in ("store(pd, ostream)", "load(istream, pd)", "storeVertices", "loadVertices", "storeEdges", "loadEdges")], canaries=_can))
+
 ASSUMPTIONS = ["compound: component (de)serializers are addressed by index and touch exactly len_i bytes at the address they are given (leaf contract); <= 64 components, each <= 4096 bytes",
                "std::sort / std::binary_search / std::map::find are modelled by an insertion sort, a real binary search and the identity map (trusted helpers)",
                "space names are compared as ranks (only the order is used)"]
